@@ -7,8 +7,9 @@
 
    Proved at the level of TOKENS (C04_parser_sound, C04_parser_exact below): for every token list of the shape the lexer
    produces, Parser.parse returns a query only if the typed token-level grammar QT derives the tokens for that query, and
-   (with C05_complete_tokens) exactly then.  What remains unproved is the lexical layer: that the lexer's token list has that
-   shape and that its tokens and the blank space between them spell a string of the ABNF.
+   (with C05_complete_tokens) exactly then; the lexer's token lists have that shape (C04_tokens_wf), so whatever compile()
+   accepts was tokenised into a list the grammar derives for the returned query (C04_compile_sound_tokens).  What remains
+   unproved is the character level: that the tokens' texts and the blank space skipped between them spell a string of the ABNF.
 
    Also proved below: the correctness of the executable oracle that decides "s is derivable from the
    RFC 9535 ABNF" for every input the check generates: it is sound, and complete for all sufficiently large
@@ -54,6 +55,21 @@ Theorem C04_parser_sound : forall cfg root t e q s, ty root = T_ROOT -> wf (t ++
   p_parse cfg (root :: t ++ [e]) = POk q s -> QT cfg q t.
 Proof. exact parse_sound. Qed.
 Print Assumptions C04_parser_sound.
+
+(* ... and the lexer does produce such token lists (Proofs/LexShape.v: an invariant of the state machine over the tokens emitted so
+   far, with what the INDEX pattern can match derived from the backtracking matcher).  So for every text: if compile() returns
+   a query, the text was cut into ROOT, tokens, EOF and the token-level grammar derives those tokens for that query.  What is
+   still missing for C04_sound at the level of characters: that each token's text and the blank space the lexer skipped between
+   tokens are what the ABNF allows at that place. *)
+From JP Require Import Model.Lex Model.Api Proofs.LexShape.
+Theorem C04_tokens_wf : forall text toks, m_tokenize text = Ok toks ->
+  exists root t e, toks = root :: t ++ [e] /\ ty root = T_ROOT /\ wf (t ++ [e]).
+Proof. exact tokenize_wf. Qed.
+Print Assumptions C04_tokens_wf.
+Theorem C04_compile_sound_tokens : forall cfg text q, m_compile cfg text = Ok q ->
+  exists root t e, m_tokenize text = Ok (root :: t ++ [e]) /\ ty root = T_ROOT /\ wf (t ++ [e]) /\ QT cfg q t.
+Proof. exact compile_sound_tokens. Qed.
+Print Assumptions C04_compile_sound_tokens.
 
 (* the hypotheses are satisfiable: ROOT, the tokens of  ..['a', 1:][?@ == 1] , EOF *)
 Example C04_parser_sound_nonvacuous :
